@@ -95,6 +95,21 @@ class Builder:
                     object.__setattr__(tgt, f, self.val(v)) if not isinstance(tgt, Obj) else tgt.__dict__.__setitem__(f, self.val(v))
         return {p: self.val(v) for p, v in self.w["params"].items()}
 
+    def default_obj(self, cls, depth=0):
+        rc = self.cls_of(cls)
+        o = object.__new__(rc) if rc is not None else Obj(cls)
+        for c in self.reg.mro(cls):
+            for f, ft in self.reg.classes.get(c, {}).get("fields", {}).items():
+                bt = (ft or "").replace("opt:", "").split("[")[0]
+                dv = {"int": 0, "str": "", "bool": False, "float": 0.0, "list": [], "dict": {}, "set": set()}.get(bt)
+                if dv is None and bt in self.reg.classes and depth < 2 and not (ft or "").startswith("opt:"):
+                    dv = self.default_obj(bt, depth + 1)
+                try:
+                    object.__setattr__(o, f, dv) if not isinstance(o, Obj) else o.__dict__.__setitem__(f, dv)
+                except Exception:
+                    pass
+        return o
+
     def val(self, v):
         if isinstance(v, dict):
             if "$ref" in v:
@@ -102,6 +117,8 @@ class Builder:
                 if k not in self.objs:
                     self.objs[k] = Obj("unknown")
                 return self.objs[k]
+            if "$default" in v:
+                return self.default_obj(v["$default"])
             if "$enum" in v:
                 cls, m = v["$enum"].split(".")
                 rc = self.cls_of(cls)
@@ -170,6 +187,8 @@ def replay_witness(reg, witness, clause, tag):
         return dict(replayed=False, reason="could not materialise the pre-state: " + traceback.format_exc(limit=2))
     key = witness["function"]
     ns = helpers(reg, b)
+    if clause == "__frame__":
+        return replay_frame(reg, witness, params, key)
     try:
         tree = ast.parse(clause.strip(), mode="eval")
         oc = OldCollector()
@@ -213,6 +232,40 @@ def replay_witness(reg, witness, clause, tag):
         if hasattr(v, "__dict__"):
             post[p] = {k: repr(x)[:80] for k, x in list(vars(v).items())[:12]}
     return dict(replayed=not holds, clause_value=holds, post_state=post, **detail)
+
+
+def snapshot(x, seen=None, depth=0):
+    """structural snapshot of everything reachable from x (attribute dicts, lists, dicts)"""
+    seen = seen if seen is not None else {}
+    if id(x) in seen or depth > 6:
+        return ("ref", id(x))
+    if isinstance(x, (int, str, float, bool, bytes, type(None), pathlib.PurePath)):
+        return x
+    seen[id(x)] = True
+    if isinstance(x, (list, tuple)):
+        return ("list", id(x), [snapshot(e, seen, depth + 1) for e in x])
+    if isinstance(x, (set, frozenset)):
+        return ("set", id(x), sorted(repr(snapshot(e, seen, depth + 1)) for e in x))
+    if isinstance(x, dict):
+        return ("dict", id(x), {repr(k): snapshot(v, seen, depth + 1) for k, v in x.items()})
+    if hasattr(x, "__dict__"):
+        return ("obj", id(x), type(x).__name__, {k: snapshot(v, seen, depth + 1) for k, v in vars(x).items()})
+    return ("opaque", id(x))
+
+
+def replay_frame(reg, witness, params, key):
+    """a function whose contract says `modifies nothing`: run it and compare everything reachable from the arguments"""
+    before = {p: snapshot(v) for p, v in params.items()}
+    meth = key.split(".")[-1]
+    try:
+        recv = params["self"]
+        getattr(type(recv), meth)(**params)
+    except BaseException as e:  # noqa
+        return dict(replayed=False, reason="real execution raised " + repr(e))
+    after = {p: snapshot(v) for p, v in params.items()}
+    changed = [p for p in params if before[p] != after[p]]
+    return dict(replayed=bool(changed), changed_arguments=changed,
+                before={p: repr(before[p])[:300] for p in changed}, after={p: repr(after[p])[:300] for p in changed})
 
 
 def replay_file(path):
